@@ -28,6 +28,7 @@
   (reactor.go), block-sync, mempool and PEX channels.
 -/
 import AnnVerif.Model.Node
+import AnnVerif.Model.BitArr
 namespace AnnVerif.C08
 open AnnVerif AnnVerif.Node
 
@@ -304,5 +305,65 @@ theorem repaired_straggler_at_height_one_ignored (n : Node) (v : VoteSet.Vote) (
 
 example : (Node.init repaired 1 v4 (some 1) false).cfg.guardNilLastCommit = true ∧
           (Node.init repaired 1 v4 (some 1) false).lastCommit = none := by decide
+
+/-! ### X9: bit arrays as a peer sends them (Model/BitArr.lean)
+
+  The consensus reactor stores the bit arrays of CommitStep / ProposalPOL / VoteSetBits messages in
+  the peer state and its gossip goroutines - which nothing recovers - apply GetIndex, Sub, and/Not
+  and PickRandom to them. For arrays of the shape `NewBitArray` makes (what the repaired reactor
+  accepts) none of these can panic; for arrays as the decoder can produce them, each can. -/
+section BitArrays
+open AnnVerif.BitArr
+
+theorem getIndex_safe (a : BA) (h : a.wf) (i : Nat) : getIndexPanics a i = false := by
+  obtain ⟨h1, h2⟩ := h
+  unfold getIndexPanics
+  by_cases hi : (i : Int) < a.bits
+  · have : ¬ (a.elems ≤ i / 64) := by omega
+    simp [hi, this]
+  · simp [hi]
+
+theorem pickRandom_safe (a : BA) (h : a.wf) : pickRandomPanics a = false := by
+  obtain ⟨h1, _⟩ := h
+  unfold pickRandomPanics
+  have : ¬ (Int.tmod a.bits 64 < 0) := by
+    have := Int.tmod_nonneg 64 (Int.le_of_lt h1)
+    omega
+  simp [this]
+
+theorem and_safe (a o : BA) (ha : a.wf) (ho : o.wf) : andPanics a o = false := by
+  obtain ⟨a1, a2⟩ := ha
+  obtain ⟨o1, o2⟩ := ho
+  unfold andPanics
+  have hmin : 0 < min a.bits o.bits := by omega
+  have hdiv : Int.tdiv (min a.bits o.bits + 63) 64 = (min a.bits o.bits + 63) / 64 :=
+    Int.tdiv_eq_ediv_of_nonneg (by omega)
+  simp only [hdiv]
+  have h1 : ¬ ((min a.bits o.bits + 63) / 64 < 0) := by omega
+  have h2 : ¬ ((o.elems : Int) < (min a.bits o.bits + 63) / 64) := by omega
+  simp [h1, h2]
+
+theorem sub_safe (a o : BA) (ha : a.wf) (ho : o.wf) : subPanics a o = false := by
+  unfold subPanics
+  split
+  · rename_i hgt
+    obtain ⟨a1, a2⟩ := ha
+    obtain ⟨o1, o2⟩ := ho
+    have h1 : ¬ (o.elems ≥ a.elems + 2) := by omega
+    have h2 : ¬ ((o.bits - 1) / 64 ≥ ((min a.elems o.elems : Nat) : Int)) := by
+      have : (min a.elems o.elems : Nat) = o.elems := by
+        apply Nat.min_eq_right; omega
+      rw [this]; omega
+    simp [h1, h2]
+  · exact and_safe a o ha ho
+
+/-- as received (as found nothing checked them): each operation of the gossip routines can panic -/
+theorem malformed_bitarrays_panic :
+    pickRandomPanics ⟨-45, 1⟩ = true ∧ andPanics ⟨1, 1⟩ ⟨5, 0⟩ = true ∧
+    subPanics ⟨1000, 16⟩ ⟨500, 1⟩ = true ∧ getIndexPanics ⟨100000, 1⟩ 64 = true := by decide
+
+example : (⟨130, 3⟩ : BA).wf ∧ ¬ (⟨-45, 1⟩ : BA).wf ∧ ¬ (⟨5, 0⟩ : BA).wf := by decide
+
+end BitArrays
 
 end AnnVerif.C08
